@@ -31,7 +31,9 @@ OddLeaves == << I("uint64", U63), I("uint", U63), I("int64", MinI), Fl("float32"
                 Fl("float32", "+Inf"), Fl("float32", "NaN"), Fl("float32", "-Inf"), Fl("float64", "NaN"), Fl("float32", "0.1"),
                 I("gen.Int", One), [g |-> "gen.String", s |-> "a"], [g |-> "[]string", a |-> <<S("a")>>], [g |-> "map[string]int", o |-> <<"k">>, v |-> <<I("int", One)>>],
                 [g |-> "struct"], [g |-> "time.Time", s |-> "2021-03-05T10:11:12Z"], [g |-> "gen.Array", a |-> <<[g |-> "gen.String", s |-> "a"]>>],
-                [g |-> "[]int", a |-> <<I("int", One)>>], [g |-> "gen.Float", f |-> "0.5"] >>
+                [g |-> "[]int", a |-> <<I("int", One)>>], [g |-> "gen.Float", f |-> "0.5"],
+                I("uint8", <<0, 2, 0, 0>>), I("uint16", <<0, 6, 5, 5, 3, 5>>), I("uint32", <<0, 4, 2, 9, 4, 9, 6, 7, 2, 9, 5>>), I("int8", <<1, 1, 2, 8>>),
+                I("int16", <<1, 3, 2, 7, 6, 8>>), I("int32", <<1, 2, 1, 4, 7, 4, 8, 3, 6, 4, 8>>) >>
 Core == << I("int", One), S("a"), Fl("float64", "0.5"), NIL >>
 Wrap(x) == << O(<<"k">>, <<x>>), O(<<"q">>, <<x>>), O(<<"k", "z">>, <<x, I("int", One)>>), A(<<S("T"), x>>), A(<<S("U"), x>>), A(<<x, S("T")>>) >>
 Wrapped == Wrap(Core[1]) \o Wrap(Core[2]) \o Wrap(Core[3]) \o Wrap(Core[4])
@@ -70,7 +72,8 @@ Menu == << <<>>,
            << RS("map", "k", Cn(A(<<S("a")>>))), RS("str", "a", Cn(S("A"))) >>,
            << RS("arr", "T", Un), RI(One, Cn(S("one"))) >>,
            << RS("arr", "T", Cn(O(<<"k">>, <<I("int", One)>>))), RS("map", "k", Un) >>,
-           << RI(MinI, Cn(S("neg"))), RI(<<1, 1>>, Cn(S("minus-one"))) >>,
+           << RI(MinI, Cn(S("neg"))), RI(<<1, 1>>, Cn(S("minus-one"))), RI(<<0, 2, 0, 0>>, Cn(S("two-hundred"))), RI(<<1, 5, 6>>, Cn(S("minus-56"))),
+              RI(<<1, 1, 2, 8>>, Cn(S("minus-128"))), RI(<<0, 1, 2, 8>>, Cn(S("plus-128"))) >>,
            << RI(One, Cn(NIL)), RS("str", "", Cn(I("int", <<0, 0>>))) >>,
            << RI(One, Cn(S("I"))), RF("0.5", Cn(S("F"))), RS("str", "a", Cn(S("S"))), RS("map", "k", Cn(S("M"))), RS("arr", "T", Cn(S("A"))) >>,
            << RS("map", "k", Un), RS("map", "q", Cn(O(<<"k">>, <<I("int", One)>>))), RS("arr", "U", Un) >> >>
@@ -90,7 +93,7 @@ NanoInts == << I("int64", <<0, 9, 4, 6, 6, 8, 4, 8, 0, 0, 0, 0, 0, 0, 0, 0, 0, 0
 MongoKeys == << "$date", "$numberLong", "$numberDecimal", "$oid", "$other" >>
 MongoMembers == << S("2021-03-05T11:22:33.123Z"), S("2021-03-05T11:22:33Z"), S("2021-03-05T11:22:33.123456Z"), S("2021-03-05"), S("123456789"), S("-5"),
                    S("+5"), S("007"), S("9223372036854775807"), S("9223372036854775808"), S("123.456"), S("1e3"), S("NaN"), S("Infinity"), S("0x1p4"),
-                   S(""), S("507f191e810c19729de860ea"), S("1e400"), S("12 "), I("int", <<0, 5>>), NIL, A(<<>>), O(<<"$numberLong">>, <<S("5")>>),
+                   S(""), S("507f191e810c19729de860ea"), S("1e400"), S("12 "), S("0x10"), S("010"), S("1_000"), I("int", <<0, 5>>), NIL, A(<<>>), O(<<"$numberLong">>, <<S("5")>>),
                    Fl("float64", "1.5"), [g |-> "bool", b |-> TRUE], [g |-> "gen.String", s |-> "5"] >>
 MongoX == [j \in 1..(Len(MongoKeys) * Len(MongoMembers)) |->
               O(<<MongoKeys[((j - 1) % Len(MongoKeys)) + 1]>>, <<MongoMembers[((j - 1) \div Len(MongoKeys)) + 1]>>)] \o
